@@ -73,6 +73,11 @@ func Enumerate(thorough bool, yield func(idx int, c Case)) int {
 					yield(idx, Case{p, shape, dev, 0, "rollback", "same", ver})
 					idx++
 				}
+				// the branch outlives the configured XA branch execution timeout
+				if shape == "auto" { // (the explicit-transaction shape never ends its branch at all: known finding)
+					yield(idx, Case{p, shape, "timeout", 0, "rollback", "same", ver})
+					idx++
+				}
 				for k := 0; k < 12; k++ {
 					for _, dev := range []string{"db-error", "db-badconn"} {
 						if dev == "db-badconn" && !thorough && k%2 == 1 {
@@ -171,6 +176,11 @@ func run(e *sys.Env, c Case) *runResult {
 			return faketc.Answer{Kind: k, Msg: "injected"}
 		}
 		return faketc.Answer{}
+	}
+	if c.Dev == "timeout" {
+		old := ssql.VerifSetXABranchTimeout(time.Nanosecond)
+		defer ssql.VerifSetXABranchTimeout(old)
+		rr.hit = true
 	}
 	if c.Holder == "noidle" {
 		e.XA.SetMaxIdleConns(0) // database/sql closes the connection as soon as the statement / transaction is over
@@ -682,7 +692,7 @@ func staleKeeper(r *rep.Run, version string) {
 // identifiers: the mapping (xid, branch id) -> XA identifier is injective on the catalogue and stable.
 func checkIdentifiers(r *rep.Run) {
 	xids := []string{"", "a", "192.168.0.1:8091:2001", "192.168.0.1:8091:20011", "x-1", "x", "x-", "世界:1", strings.Repeat("k", 200), "a:b:c-7-7"}
-	brs := []uint64{0, 1, 7, 11, 1 << 63, 1<<64 - 1, 2001}
+	brs := []uint64{0, 1, 7, 11, 1 << 63, 1<<64 - 1, 2001, 1<<32 - 1, 1 << 32, 2612341069705662465}
 	seen := map[string]string{}
 	for _, x := range xids {
 		for _, b := range brs {
@@ -697,6 +707,13 @@ func checkIdentifiers(r *rep.Run) {
 				r.Violate("identifier/collision", "the identifier is an injective function of (xid, branch id)", key, fmt.Sprintf("%s and %s both map to %q", prev, key, id1))
 			}
 			seen[id1] = key
+			// the byte form (global transaction id, branch qualifier) leads back to the same identifier
+			built := ssql.XaIdBuild(x, b)
+			back := ssql.XaIdBuildWithByte(built.GetGlobalTransactionId(), built.GetBranchQualifier())
+			if back.String() != id1 || back.GetBranchId() != b || back.GetGlobalXid() != x {
+				r.Violate("identifier/byte-round-trip", "one branch identifier that is a function of the global xid and the branch id", key,
+					fmt.Sprintf("%q -> bytes -> %q (xid %q, branch id %d)", id1, back.String(), back.GetGlobalXid(), back.GetBranchId()))
+			}
 		}
 	}
 }
